@@ -355,6 +355,32 @@ int main(int argc, char **argv) {
         else { PSet ps(40, 1024, 2, 2, 9, 5, 3, ldexp(1., -18), ldexp(1., -28)); key_rows(ps.gb, "custom-n40-k2:seed" + std::to_string(seed), 1024, args.i("threads", 8)); }
     } else if (mode == "ksrows") ks_rows_mode(args.i("n_in", 16384), args.i("n_out", 8), args.d("alpha", ldexp(1., -15)));
     else if (mode == "seeding") seeding();
+    else if (mode == "keybits") {
+        // secret key bits, position by position, over many generated keys: each position is 1 in half of the keys, positions are
+        // uncorrelated (lags 1..64), every residue class of the index modulo 2..64 is balanced, as is every key as a whole
+        int K = args.i("keys", 2000);
+        struct Acc { std::vector<uint32_t> ones; std::vector<uint64_t> lag; uint64_t total = 0, n = 0; int len; Acc(int len) : ones(len, 0), lag(65, 0), len(len) {} 
+            void add(const int32_t *key) { for (int i = 0; i < len; i++) { if (key[i] != 0 && key[i] != 1) out.viol("noise:key-not-binary", J().i("value", key[i])); ones[i] += key[i]; total += key[i]; }
+                for (int L = 1; L <= 64 && L < len; L++) for (int i = 0; i + L < len; i++) lag[L] += (key[i] == key[i + L]); n++; } };
+        auto report = [&](const char *what, Acc &a) {
+            // per-position z-scores, worst residue class, worst lag: judged offline (8 sigma + union over the number of statistics)
+            double worst_pos = 0; int worst_pos_i = -1; for (int i = 0; i < a.len; i++) { double z = (a.ones[i] - a.n / 2.0) / sqrt(a.n / 4.0); if (fabs(z) > fabs(worst_pos)) { worst_pos = z; worst_pos_i = i; } }
+            double worst_cls = 0; int wm = 0, wr = 0; for (int m = 2; m <= 64; m++) for (int r = 0; r < m; r++) { uint64_t o = 0, c = 0; for (int i = r; i < a.len; i += m) { o += a.ones[i]; c += a.n; } if (c < 64) continue; double z = (o - c / 2.0) / sqrt(c / 4.0); if (fabs(z) > fabs(worst_cls)) { worst_cls = z; wm = m; wr = r; } }
+            double worst_lag = 0; int wl = 0; for (int L = 1; L <= 64 && L < a.len; L++) { double c = (double) a.n * (a.len - L); double z = (a.lag[L] - c / 2.0) / sqrt(c / 4.0); if (fabs(z) > fabs(worst_lag)) { worst_lag = z; wl = L; } }
+            double tot = (double) a.n * a.len, ztot = (a.total - tot / 2.0) / sqrt(tot / 4.0);
+            out.stat(J().s("kind", "keybits").s("key", what).u("keys", a.n).i("length", a.len).d("z_total_balance", ztot).d("z_worst_position", worst_pos).i("worst_position", worst_pos_i)
+                             .d("z_worst_residue_class", worst_cls).i("class_modulus", wm).i("class_residue", wr).d("z_worst_lag", worst_lag).i("worst_lag", wl));
+            out.evaluations += a.n; out.cell(std::string("keybits:") + what, a.n);
+        };
+        { LweParams *P = new_LweParams(630, ldexp(1., -15), 0.25); LweKey *Kk = new_LweKey(P); Acc a(630); VH_OP("lweKeyGen x %d", K);
+          for (int q = 0; q < K; q++) { if (q % 97 == 0) seed_library(seed * 131 + q + (uint64_t) args.i("shard", 0) * 100003); lweKeyGen(Kk); a.add(Kk->key); } report("lwe-n630", a); delete_LweKey(Kk); delete_LweParams(P); }
+        { LweParams *P = new_LweParams(500, ldexp(1., -15), 0.25); LweKey *Kk = new_LweKey(P); Acc a(500); for (int q = 0; q < K; q++) { lweKeyGen(Kk); a.add(Kk->key); } report("lwe-n500", a); delete_LweKey(Kk); delete_LweParams(P); }
+        for (int kk = 1; kk <= 2; kk++) { TLweParams *TP = new_TLweParams(1024, kk, ldexp(1., -25), 0.25); TGswParams *GP = new_TGswParams(2, 10, TP); TGswKey *GK = new_TGswKey(GP); Acc a(1024 * kk); std::vector<int32_t> flat(1024 * kk);
+          VH_OP("tGswKeyGen x %d (k=%d)", K, kk);
+          for (int q = 0; q < K / kk; q++) { tGswKeyGen(GK); for (int i = 0; i < kk; i++) memcpy(&flat[1024 * i], GK->tlwe_key.key[i].coefs, 4096); a.add(flat.data()); }
+          report(kk == 1 ? "ring-N1024-k1" : "ring-N1024-k2", a); delete_TGswKey(GK); delete_TGswParams(GP); delete_TLweParams(TP); }
+        out.sample(J().s("mode", "keybits").i("keys_per_kind", K));
+    }
     else if (mode == "tail") {
         // the sampler itself, far into its tails: a bootstrapping key of the 128-bit set makes 3.9e6 draws, so an event of
         // probability 1e-9 per draw spoils one key in a few hundred. count draws at one sigma, all moments + the maximum
